@@ -182,6 +182,21 @@ def run_one(tape, cfg):
                 elif len(smp) != kk or Counter(smp) - Counter(pop):
                     out.violate("sample_not_submultiset", f"sample(b, {kk}) -> {list(smp)}, population {pop}",
                                 op=op)
+            if out.status != "violation" and pop and tape.chance(1, 2, "chained"):
+                # a second random_sample on top of the first: with graph optimisation the two lazy
+                # stages run fused in one task, without it they run apart -- same subsequence either way
+                chained = sampled.random_sample(0.5, random_state=rs + 1)
+                r6, r7 = sr.SimRun(tape), sr.SimRun(tape)
+                with r6:
+                    fused = list(chained.compute(scheduler=r6.get))
+                with r7:
+                    apart = list(chained.compute(scheduler=r7.get, optimize_graph=False))
+                digests.extend([r6.sim.digest(), r7.sim.digest()])
+                out.probe("chained_random_sample")
+                if fused != apart:
+                    out.violate("random_sample_not_reproducible",
+                                f"random_sample chained on random_sample: {fused} with graph optimisation, "
+                                f"{apart} without", op=op)
             if out.status != "violation":
                 # a subsequence of the population, partition by partition
                 it = iter(pop)
